@@ -4,6 +4,7 @@ Proposal method for initial sampling when priors are not analytical.
 """
 import numpy as np
 
+from .. import _verif
 from .analytic import AnalyticProposal
 
 
@@ -110,6 +111,15 @@ class RejectionProposal(AnalyticProposal):
         log_u = np.log(np.random.rand(N))
         indices = np.where((log_w - log_u) >= 0)[0]
         self.samples = x[indices]
+        if _verif.ENABLED:
+            _verif.emit(
+                "rejection_batch",
+                log_w=log_w,
+                log_u=log_u,
+                indices=indices,
+                x=x,
+                n_target=N,
+            )
         self.indices = np.random.permutation(self.samples.shape[0]).tolist()
         self.population_acceptance = self.samples.size / N
         self.samples["logL"] = self.model.batch_evaluate_log_likelihood(
